@@ -27,6 +27,9 @@ def run_batch(ck, cases, spec_name="Dynamics", need_actions=()):
     """TLC on all cases, real code on all cases; returns list of (case, text, expected outputs, real)."""
     global _SCRATCH
     _SCRATCH = scratch()
+    dyn.install_helper(_SCRATCH)  # once, in the parent: forked workers inherit it (no write race)
+    for c in cases:
+        c.setdefault("impl", 0)
     texts = [dyn.to_scenic(c) for c in cases]
     exp = {}
     for base in range(0, len(cases), 1500):
@@ -77,6 +80,7 @@ def main(tier):
             ck.violation(f"well-formed program does not compile: {real['error']}",
                          {"property": "C12", "program": text, "case": case, "error": real})
             continue
+        real = dyn.settle(case, text, _SCRATCH, real)
         diff = dyn.compare(exp, real)
         if diff:
             ck.violation(diff, {"property": "C12", "program": text, "case": case, "expected": exp, "observed": real, "first_difference": diff})
